@@ -133,6 +133,9 @@ func cmdCheck(args []string) {
 
 	findings := loadFindings(filepath.Join(*verif, "known_findings.txt"))
 	isKnown := func(name string) (finding, bool) {
+		if i := strings.Index(name, "/r"); i > 0 {
+			name = name[:i] // per-return-site obligations share the clause's name
+		}
 		for _, f := range findings {
 			if !f.fixed && f.prop == *prop && f.name == name {
 				return f, true
